@@ -1,7 +1,7 @@
 package gkvlite
-// BOUNDED stand-in for the whole-history clauses of C04: the same pseudo-random histories as /verif/bounded/C10/c10_test.go
-// (this file is generated from it by renaming); see the comment there. Bounded, not a proof.
 
+// BOUNDED stand-in for the whole-history clauses of C04: the same pseudo-random histories as /verif/bounded/C10/c10_test.go
+// (this file is generated from it by tools/sync_bounded.py); see the comment there. Bounded, not a proof.
 
 import (
 	"encoding/json"
